@@ -435,3 +435,27 @@ CHECKS["C09"] = dict(
         level_note="Trusts the unroller's reading of loop-boundary semantics as stated in the assumptions.",
     ),
 )
+
+CHECKS["C17"] = dict(
+    harnesses={"pbt": dict(src="c17_frontends.cpp", cfg="asan", kind="rc")},
+    quick=[dict(name="pbt", harness="pbt", workers=8, args=["--n", "2500"])],
+    thorough=[dict(name="pbt", harness="pbt", workers=16, args=["--n", "80000"], timeout=10800)],
+    rule="rapidcheck, four generators: (RMI) a generated SMF wrapped in RIFF/RMID (even and odd sizes) and (GMF) a single-track body wrapped as GMF must deliver the raw-event stream of the bare "
+         "SMF at identical song times; (MUS) generated DMX MUS scores (release, play with/without volume byte, pitch wheel 0..255, system events 10..14, controllers 0..9, channels 0..14 + 15, "
+         "single- and multi-byte delays) are interpreted independently (channel 15 -> MIDI 9, others in first-use order skipping 9, controller table, remembered volumes, pitch-wheel MSB) and "
+         "compared event by event, with one fitted tick length that must be within 2.5 % of 1/140 s and fit every event; (XMI) generated AIL XMIDI files with 1-4 sequences (tempo at time 0, "
+         "notes with durations, controllers, program, bend, pressure, interval counts as 0x7F sums) selected before or after load: getSongsCount, note-offs at on+duration, events on the 120 Hz "
+         "grid (exact for tempos that are multiples of 25000 us, 1/PPQN otherwise). Non-trivial = RMI/GMF with >2 events, MUS with >=3 channels incl. 15 and a multi-byte delay, XMI with >=2 "
+         "sequences and a played index > 0.",
+    assumptions=[
+        "MUS: the converter's own housekeeping (tempo meta, initial CC7=100 per channel, End-of-Track) is removed before comparison; release velocity and the value of the 'mono' system event are free; pitch-wheel LSB may be 0 or the half step",
+        "XMI: controllers 0 and 110..119 (XMIDI-specific translations) and TIMB/RBRN chunks are not generated",
+        "every MUS channel states a volume on its first note (the format does not define the initial volume)",
+    ],
+    min_nontrivial={"quick": 300, "thorough": 3000},
+    manifest=dict(
+        technique="differential (container vs bare SMF twin) and model-based (independent MUS / XMIDI interpreters over generated score models) property testing through the raw-event hook",
+        level_text="RMI/GMF are judged differentially against the bare SMF; MUS and XMIDI deliveries are compared with independent interpreters of the two formats, including the tick-rate clauses.",
+        level_note="Trusts the harness's MUS and XMIDI writers/interpreters (written from the format documentation, not from the converters).",
+    ),
+)
